@@ -174,6 +174,14 @@ func fill(res *RunRes, env *Env, req RunReq, cfg RunCfg, plan Plan, t0 time.Time
 		hh = simrt.HashStr(hh, fmt.Sprintf("%d|%s|%s|%s|%s|%d", ev.Step, ev.G, ev.Kind, ev.A, ev.B, ev.N))
 	}
 	res.HistHash = fmt.Sprintf("%016x", hh)
+	if os.Getenv("SIM_HISTORY") != "" {
+		for _, ev := range s.History() {
+			fmt.Fprintf(os.Stderr, "H %6d %-40s %-12s %s %s %d\n", ev.Step, ev.G, ev.Kind, ev.A, ev.B, ev.N)
+		}
+		for _, d := range env.N.Dials() {
+			fmt.Fprintf(os.Stderr, "D step=%d at=%v %s pipe=%d %s\n", d.Step, d.At, d.Outcome, d.Pipe, d.G)
+		}
+	}
 	res.Fired = env.N.Fired
 	res.Probes = map[string]int{}
 	for k, v := range env.N.Probes {
